@@ -623,3 +623,64 @@ def _arange(eng, node, *a, dtype=None):
     if not (ops.is_concrete_num(step) and ops.q(step) == 1):
         raise Unsupported("arange with a step other than 1")
     return ARange(start, stop, step)
+
+
+@reg("scipy.spatial.KDTree", "scipy.spatial.cKDTree")
+def _kdtree(eng, node, data, boxsize=None, balanced_tree=True, compact_nodes=True, leafsize=10):
+    """assumed contract: a KD-tree IS the sequence of its data rows (which must all be finite); queries are modelled in the
+    contracts that use them.  Value: record kdtree(n, pts)"""
+    from .types import TOpt as _TOpt, TVec as _TVec
+    j = z3.Int("_kd")
+    if isinstance(data, NArr):
+        rows = data.rows() if len(data.shape) == 2 else [data]
+        pts = to_slist(CList(rows), _TVec(3))
+        return Rec("kdtree", {"n": len(rows), "pts": pts})
+    if isinstance(data, SList) and isinstance(data.t, _TOpt):
+        eng.may_raise("ValueError", b_not(z3.ForAll([j], z3.Implies(z3.And(0 <= j, j < data.n), z3.Not(data.comps[0][j])))), node,
+                      "KDTree data must be finite")
+        return Rec("kdtree", {"n": data.n, "pts": SList(data.t.t, data.n, data.comps[1:])})
+    if isinstance(data, SList):
+        return Rec("kdtree", {"n": data.n, "pts": data})
+    raise Unsupported("KDTree data form")
+
+
+class ColView:
+    """positions[:, c] of an (N,3) array held as a list of optional rows"""
+
+    def __init__(self, rows, col):
+        self.rows, self.col = rows, col
+
+
+class DefMask:
+    """boolean mask `positions[:, 0] != np.inf`: True exactly for the defined rows"""
+
+    def __init__(self, rows):
+        self.rows = rows
+
+
+@reg("numpy.where")
+def _np_where(eng, node, mask):
+    """np.where(mask)[0]: the increasing list of the indices where the mask holds"""
+    if not isinstance(mask, DefMask):
+        raise Unsupported("np.where form")
+    rows = mask.rows
+    tag = f"where{eng.counters.get('where', 0)}"
+    eng.counters["where"] = eng.counters.get("where", 0) + 1
+    n = z3.Int(f"{tag}.n")
+    arr = z3.Const(f"{tag}.idx", z3.ArraySort(z3.IntSort(), z3.IntSort()))
+    rank = z3.Function(f"{tag}.rank", z3.IntSort(), z3.IntSort())
+    i, j, g = z3.Ints("_wi _wj _wg")
+    defined = lambda x: z3.And(0 <= x, x < rows.n, z3.Not(rows.comps[0][x]))      # noqa: E731
+    eng.assume(n >= 0)
+    eng.assume(z3.ForAll([i], z3.Implies(z3.And(0 <= i, i < n), z3.And(defined(arr[i]), rank(arr[i]) == i))))
+    eng.assume(z3.ForAll([g], z3.Implies(defined(g), z3.And(0 <= rank(g), rank(g) < n, arr[rank(g)] == g))))
+    eng.assume(z3.ForAll([i, j], z3.Implies(z3.And(0 <= i, i < j, j < n), arr[i] < arr[j])))
+    eng.last_where_rank = rank
+    return (SList(TInt, n, [arr]),)
+
+
+@reg("numpy.asarray")
+def _asarray2(eng, node, x, dtype=None):
+    if isinstance(x, (SList, SDict, Rec)) or is_sym(x):
+        return x
+    return _array(eng, node, x, dtype)
